@@ -49,7 +49,21 @@ def main():
         how = 'MISSED'
         if rc != 0 and viol:
             how = 'no-failing-input-found' if all(v.rstrip().endswith('no-failing-input-found') for v in viol) else 'failing-input'
+        # the minimised failing history becomes a corpus case of that property (corpus cases run first in every later check)
+        kept = None
+        if how == 'failing-input':
+            m = re.search(r'replay=(\S+\.script)', viol[0])
+            if m and os.path.exists(m.group(1)):
+                txt = open(m.group(1)).read()
+                lm = re.search(r'layer=(\w+)', txt.split('\n')[0])
+                if lm:
+                    cdir = os.path.join(ROOT, 'corpus', pid, lm.group(1))
+                    os.makedirs(cdir, exist_ok=True)
+                    kept = os.path.join(cdir, name + '.script')
+                    body = '\n'.join(l for l in txt.split('\n') if not l.startswith('#'))
+                    open(kept, 'w').write(f'# minimised failing history of seeded change {name} (agrees with the model on the unchanged library)\n' + body)
         det = {'property': pid, 'tier': tier, 'exit': rc, 'violation_lines': viol, 'summary': summary, 'verdict': how, 'wall_s': wall,
+               'corpus_case': os.path.relpath(kept, ROOT) if kept else None,
                'ran': f'git -C /repo apply seeded/{name}/patch.diff; bin/verif check {pid} --tier {tier}; git -C /repo checkout -- .'}
         json.dump(det, open(os.path.join(ROOT, 'seeded', name, 'detect.json'), 'w'), indent=1)
         rows.append((name, how, viol[0] if viol else '', wall))
